@@ -2,7 +2,7 @@
 C19 model: `etl::extents`, `layout_left/right/stride::mapping`, `linalg::layout_transpose`,
 `mdspan`/`mdarray` element access and `span::first/last/subspan`, mirrored clause by clause
 from include/etl/_mdspan/*.hpp, _linalg/layout_transpose.hpp, _mdarray/mdarray.hpp, _span/span.hpp
-(after the three `fix:` commits of branch fix-c19).
+(after the `fix:` commits of branches fix-c19 and fix-c19b).
 
 Conventions
 * a static-extents pattern is `List (Option Nat)` (`none` = `dynamic_extent`);
@@ -122,6 +122,40 @@ def Ext.conv (t ts : IdxT) (p : Pat) (src : Ext) : Except Err Ext :=
     let d ← convLoop t ts p src (List.range p.length) (List.replicate (rankDynamic p) 0)
     pure { pat := p, dyn := d }
 
+/-- loop of `extents::operator==`: `if (cmp_not_equal(lhs.extent(i), rhs.extent(i))) return false`
+    (`cmp_not_equal` compares the mathematical values of the two index types) -/
+def extEqLoop (t1 t2 : IdxT) (a b : Ext) : List Nat → Except Err Bool
+  | [] => .ok true
+  | i :: is => do
+    let x ← a.extent t1 i
+    let y ← b.extent t2 i
+    if x ≠ y then pure false else extEqLoop t1 t2 a b is
+
+/-- `operator==(extents const&, extents<OtherIndexType, OtherExtents...> const&)` -/
+def Ext.eq (t1 t2 : IdxT) (a b : Ext) : Except Err Bool :=
+  if a.pat.length ≠ b.pat.length then .ok false else extEqLoop t1 t2 a b (List.range a.pat.length)
+
+/-- `detail::submdspan_extents_builder::next` for slice specifiers that are `full_extent` (`true`: the dimension is kept
+    with its static extent, `ext.extent(k)` is appended to the constructor arguments) or an index (`false`: the dimension is
+    dropped); after the fix of branch fix-c19b the static extents are appended in order.  Index-pair slices with run-time
+    bounds and `strided_slice` do not compile (constructor arity / `static_assert`) and are not modelled. -/
+def subLoop (t : IdxT) (e : Ext) : List Nat → List Bool → Pat → List Int → Except Err (Pat × List Int)
+  | k :: ks, keep :: rest, p, v =>
+    if keep then do
+      let se ← rd e.pat k
+      let x ← e.extent t k
+      subLoop t e ks rest (p ++ [se]) (v ++ [x])
+    else subLoop t e ks rest p v
+  | _, _, p, v => .ok (p, v)
+
+/-- `submdspan_extents(ext, slices...)`: `extents<IndexType, NewStaticExtents...>(newExts...)` with one value per kept
+    dimension (the `N == rank()` constructor); `sizeof...(slices) == rank()` is a `requires` clause -/
+def submdspanExtents (t : IdxT) (e : Ext) (keep : List Bool) : Except Err Ext :=
+  if keep.length ≠ e.pat.length then .error (.pre "arity")
+  else do
+    let (p, v) ← subLoop t e (List.range e.pat.length) keep [] []
+    Ext.ofVals t p v
+
 /-- the product loops: `result *= static_cast<size_t>(extent(e))` for `e` in the given list -/
 def prodLoop (t : IdxT) (e : Ext) : List Nat → Int → Except Err Int
   | [], acc => .ok acc
@@ -192,6 +226,84 @@ def StrideMap.mapIdx (t : IdxT) (m : StrideMap) (idx : List Int) : Except Err In
   else do
     let s ← sumLoop (fun k => rd m.strides k) t 0 idx
     pure (t.wrap s)
+
+/-- first loop of `layout_stride::mapping::required_span_size()`: `if (extent(r) == 0) return 0` -/
+def anyZeroLoop (t : IdxT) (e : Ext) : List Nat → Except Err Bool
+  | [] => .ok false
+  | r :: rs => do
+    let x ← e.extent t r
+    if x = 0 then pure true else anyZeroLoop t e rs
+
+/-- second loop: `size = static_cast<index_type>(size + (extent(r) - 1) * _strides[r])` -/
+def reqStrideLoop (t : IdxT) (m : StrideMap) : List Nat → Int → Except Err Int
+  | [], size => .ok size
+  | r :: rs, size => do
+    let x ← m.ext.extent t r
+    let s ← rd m.strides r
+    reqStrideLoop t m rs (t.wrap (size + (x - 1) * s))
+
+/-- `layout_stride::mapping::required_span_size()` -/
+def StrideMap.reqSpan (t : IdxT) (m : StrideMap) : Except Err Int := do
+  let z ← anyZeroLoop t m.ext (List.range m.ext.pat.length)
+  if z then pure 0 else reqStrideLoop t m (List.range m.ext.pat.length) 1
+
+/-- `layout_stride::mapping::is_exhaustive()`:
+    `static_cast<size_t>(required_span_size()) == extents().fwd_prod_of_extents(rank)` -/
+def StrideMap.isExhaustive (t : IdxT) (m : StrideMap) : Except Err Bool := do
+  let r ← m.reqSpan t
+  let p ← m.ext.fwdProd t m.ext.pat.length
+  pure (sz r == p)
+
+/-- `strides_of(other)`: `result[r] = static_cast<index_type>(other.stride(r))` into a value-initialised array -/
+def stridesOfLoop (t : IdxT) (get : Nat → Except Err Int) : List Nat → List Int → Except Err (List Int)
+  | [], acc => .ok acc
+  | r :: rs, acc => do
+    let s ← get r
+    let acc' ← wr acc r (t.wrap s)
+    stridesOfLoop t get rs acc'
+
+/-- `layout_stride::mapping(StridedLayoutMapping const& other)`: extents converted by the converting constructor of
+    `extents`, every `other.stride(r)` cast to `index_type`.  `ts` is the index type of the source. -/
+def StrideMap.ofMapping (t ts : IdxT) (p : Pat) (srcExt : Ext) (srcStride : Nat → Except Err Int) : Except Err StrideMap := do
+  let e ← Ext.conv t ts p srcExt
+  let strs ← stridesOfLoop t srcStride (List.range p.length) (List.replicate p.length 0)
+  pure { ext := e, strides := strs }
+
+/-- `layout_left/right::mapping(layout_stride::mapping<OtherExtents> const& other)`: `_extents{other.extents()}` -/
+def contigOfStride (t ts : IdxT) (p : Pat) (src : StrideMap) : Except Err Ext := Ext.conv t ts p src.ext
+
+/-- `OFFSET(other)` of [mdspan.layout.stride.expo] as `offset_of` computes it -/
+def offsetOf (ts : IdxT) (oExt : Ext) (oMap : List Int → Except Err Int) (rank : Nat) : Except Err Int :=
+  if rank = 0 then do
+    let o ← oMap []
+    pure (sz o)
+  else do
+    let p ← oExt.fwdProd ts rank
+    if p = 0 then pure 0
+    else do
+      let o ← oMap (List.replicate rank 0)
+      pure (sz o)
+
+/-- third part of `operator==`: `if (cmp_not_equal(lhs.stride(r), rhs.stride(r))) return false` -/
+def strideEqLoop (m : StrideMap) (oStride : Nat → Except Err Int) : List Nat → Except Err Bool
+  | [] => .ok true
+  | r :: rs => do
+    let a ← m.stride r
+    let b ← oStride r
+    if a ≠ b then pure false else strideEqLoop m oStride rs
+
+/-- `operator==(layout_stride::mapping const& lhs, OtherMapping const& rhs)`; equal rank is a `requires` clause.
+    The other mapping is given by its extents, `stride(r)` and `operator()`. -/
+def StrideMap.eqMapping (t ts : IdxT) (m : StrideMap) (oExt : Ext) (oStride : Nat → Except Err Int)
+    (oMap : List Int → Except Err Int) : Except Err Bool :=
+  if oExt.pat.length ≠ m.ext.pat.length then .error (.pre "rank")
+  else do
+    let eq ← Ext.eq t ts m.ext oExt
+    if !eq then pure false
+    else do
+      let off ← offsetOf ts oExt oMap m.ext.pat.length
+      if off ≠ 0 then pure false
+      else strideEqLoop m oStride (List.range m.ext.pat.length)
 
 /-! ## layout_transpose (rank 2) -/
 
@@ -265,12 +377,52 @@ def mdspanAtStride {α : Type} (t : IdxT) (m : StrideMap) (buf : List α) (idx :
   let k := sz o
   if k < 0 then .error .oob else rd buf k.toNat
 
+/-- `mdspan::operator()` over a `layout_transpose` mapping -/
+def mdspanAtT {α : Type} (t : IdxT) (m : TMap) (buf : List α) (i j : Int) : Except Err α := do
+  let o ← m.mapIdx t (t.wrap i) (t.wrap j)
+  let k := sz o
+  if k < 0 then .error .oob else rd buf k.toNat
+
+/-- `mdspan::size()`: `static_cast<size_type>(extents().fwd_prod_of_extents(rank()))` -/
+def mdspanSize (t : IdxT) (e : Ext) : Except Err Int := do
+  let p ← e.fwdProd t e.pat.length
+  pure (t.toUnsigned.wrap p)
+
+/-- `mdspan::empty()`: `size() == size_type{}` -/
+def mdspanEmpty (t : IdxT) (e : Ext) : Except Err Bool := do
+  let n ← mdspanSize t e
+  pure (n == 0)
+
+/-- `mdspan::operator[](span<OtherIndexType, rank()> indices)` = `(*this)(indices[Is]...)`; `operator[](array)` forwards
+    to it through `span{indices}` -/
+def mdspanAtSpan {α : Type} (l : Lay) (t : IdxT) (e : Ext) (buf : List α) (indices : List Int) : Except Err α := do
+  let args ← (List.range e.pat.length).mapM (fun k => rd indices k)
+  mdspanAt l t e buf args
+
 /-- `mdarray(mapping)` with a size-constructible container: `container_type(required_span_size())`, then
     `operator()` = `_ctr[static_cast<size_t>(_map(...))]`.  Returns (container size, offset read). -/
 def mdarrayAt (l : Lay) (t : IdxT) (e : Ext) (idx : List Int) : Except Err (Int × Nat) := do
   let n ← reqSpan l t e
   let ctr := List.range (sz n).toNat
   let x ← mdspanAt l t e ctr idx
+  pure (sz n, x)
+
+/-- `mdarray::container_size()` after `mdarray(mapping)` -/
+def mdarrayContainerSize (l : Lay) (t : IdxT) (e : Ext) : Except Err Int := do
+  let n ← reqSpan l t e
+  pure (sz n)
+
+/-- `mdarray::to_mdspan()(indices...)`: an mdspan over `container_data()` with the same mapping.
+    Returns the offset read in the container. -/
+def mdarrayToMdspanAt (l : Lay) (t : IdxT) (e : Ext) (idx : List Int) : Except Err Nat := do
+  let n ← mdarrayContainerSize l t e
+  mdspanAt l t e (List.range n.toNat) idx
+
+/-- `mdarray` over a `layout_stride` mapping (possible since `required_span_size` is defined):
+    (container size, offset read) -/
+def mdarrayAtStride (t : IdxT) (m : StrideMap) (idx : List Int) : Except Err (Int × Nat) := do
+  let n ← m.reqSpan t
+  let x ← mdspanAtStride t m (List.range (sz n).toNat) idx
   pure (sz n, x)
 
 /-! ## span -/
